@@ -762,3 +762,80 @@ def check_C16(rep, scr, tier, seed):
     return rep.finish('qsort_s: all key patterns over {0,1,2} for nmemb <= 6..8 (sampled above 60 patterns), random arrays up to 300 elements, element sizes 1..513 incl. 255/256/257; bsearch_s: sorted arrays of 0..11 elements x sizes 1,4,7 x 20 keys (present and absent); non-trivial = distinct (function, size, nmemb, result, build)',
                       'make -C /verif/coq Properties_C16.vo + harness/check.py C16')
 REGISTRY['C16'] = check_C16
+
+# ------------------------------------------------------------------ C18: secure erase
+import eraseshape_tr
+def check_C18(rep, scr, tier, seed):
+    import random
+    rng = random.Random(seed)
+    variants = ['O1', 'noslack'] + (['O0', 'O3'] if tier == 'thorough' else [])
+    impls = {v: vlib.build_impl(scr, v) for v in variants}
+    constsd = {v: vlib.consts(scr, impls[v]) for v in variants}
+    vlib.write_gen_consts(constsd['O1'])
+    errors = []
+    try:
+        prims, entries = eraseshape_tr.analyse(vlib.REPO, impls['O1'] + '/inc')
+        eraseshape_tr.write_gen(prims, entries, vlib.COQ)
+        rep.extra['shapes'] = {n: a for n, a in prims + entries}
+    except eraseshape_tr.Unsupported as e:
+        errors.append(str(e))
+    md = vlib.build_model()
+    pr = proofs(rep, scr, 'C18')
+    for var in variants:
+        consts = constsd[var]; cases = []; n = 0
+        sizes = [1, 2, 3, 7, 8, 9, 15, 16, 17, 31, 33, 64, 127, 128, 129, 200] + (list(range(201, 400, 13)) if tier == 'thorough' else [])
+        for al in (0, 1, 2, 3, 4, 5, 6, 7) + ((8, 9, 15) if tier == 'thorough' else ()):
+            for sz in sizes:
+                for func, w in (('memset_s', 1), ('memzero_s', 1), ('memset16_s', 2), ('memzero16_s', 2), ('memset32_s', 4), ('memzero32_s', 4)):
+                    if al % w: continue
+                    cnt = max(sz // w, 1); nb = cnt * w
+                    blk = b'\xa5' * al + fam_copy.garbage(rng, nb) + b'\x7e' * 9       # canaries behind the erased bytes
+                    for val in ((0, 0x41, 0x80, 0xfe) if 'set' in func else (0,)):
+                        n += 1
+                        if 'set' in func: args = [(0, al), nb, val if w == 1 else (val * 0x0101 if w == 2 else val * 0x01010101), cnt, UNK]
+                        else: args = [(0, al), cnt, UNK]
+                        cases.append(vlib.Case('e%d' % n, func, [('L', blk)], args, {'cls': 'erase', 'w': w, 'cnt': cnt, 'al': al, 'val': args[2] if 'set' in func else 0, 'func': func, 'nb': nb}))
+        for dmax in (1, 2, 3, 8, 31, 32, 33, 40, 64):
+            for content in ('str', 'lead0', 'full'):
+                n += 1
+                k = {'str': dmax // 2, 'lead0': 0, 'full': dmax}[content]
+                body = bytes(rng.choice(fam_copy.NARROW) for _ in range(k)) + (b'\0' if k < dmax else b'') + fam_copy.garbage(rng, max(dmax - k - 1, 0))
+                blk = body[:dmax] + b'\x7e' * 5
+                cases.append(vlib.Case('e%d' % n, 'strzero_s', [('L', blk)], [(0, 0), dmax, UNK], {'cls': 'erase', 'w': 1, 'cnt': dmax, 'al': 0, 'val': 0, 'func': 'strzero_s', 'nb': dmax, 'content': content}))
+        oi, om = run_cases(rep, scr, impls[var], md, consts, cases, 'erase_' + var)
+        for x in cases:
+            a = oi.get(x.id); b = om.get(x.id); m = x.meta
+            rep.evals += 1; rep.count('%s/%s' % (x.func, var))
+            if a is None or b is None: continue
+            rep.nontrivial.add((x.func, m['cnt'], m['al'], var, a.ret))
+            if len(rep.samples) < 6 and rep.evals % 1999 == 5: rep.samples.append({'case': x.line()[:160], 'impl': a.raw[:160]})
+            fails = []
+            if a.fault != '-': fails.append(('fault', 'faulted at %s' % a.fault))
+            elif a.ret != '0': fails.append(('error-return', 'valid erase request returned %s' % a.ret))
+            else:
+                before = x.blocks[0][1]; after = a.blocks[0]; al, nb, w = m['al'], m['nb'], m['w']
+                want = fam_copy.enc([m['val']] * m['cnt'], w)
+                if x.func == 'strzero_s' and not consts['null_slack']:
+                    # no-slack build: only the characters of the string are required to be zero
+                    k = before[:nb].find(b'\0'); k = nb if k < 0 else k
+                    if any(after[:k]): fails.append(('not-erased', 'strzero_s left string characters behind'))
+                elif after[al:al + nb] != want:
+                    i = next(k for k in range(nb) if after[al + k] != want[k])
+                    fails.append(('not-erased', 'byte %d of the %d addressed bytes holds %#x instead of the fill value (dest offset %d)' % (i, nb, after[al + i], al)))
+                if after[:al] != before[:al] or after[al + nb:] != before[al + nb:]: fails.append(('extra-bytes', 'bytes outside the requested %d were changed' % nb))
+            for kind, text in fails:
+                kid = known.classify(rep, x, a, kind, var, consts)
+                if kid: rep.known_hits[kid] = rep.known_hits.get(kid, 0) + 1
+                else: rep.violation('%s(%s): %s' % (x.func, var, text), {'key': (x.func, kind, var), 'property': 'C18', 'function': x.func, 'failure': kind, 'case': x.to_json(), 'case_line': x.line(), 'impl_outcome': a.raw, 'model_outcome': b.raw})
+            if not fails and (a.ret, a.blocks, a.handlers) != (b.ret, b.blocks, b.handlers): rep.mismatches.append((x, a, b, var))
+    kf_shape = [k for k in rep.known if k.get('predicate') == 'kf_strzero_unprotected']
+    if kf_shape: rep.known_hits[kf_shape[0]['id']] = 1
+    if errors: rep.violation('erase shape translator cannot process the current source: %s' % errors, {'key': 'translator', 'property': 'C18', 'no_failing_input': True, 'broken': 'translator eraseshape / theorem C18_shapes_protected'})
+    report_proofs(rep, pr, 'C18')
+    report_mismatches(rep, 'T1 (fill exactness)')
+    rep.trusted = TRUSTED_COMMON + ['translator eraseshape (regular expressions over the preprocessed sources): volatile-qualified pointer declarations, store statements, barrier expansions',
+                                    'abstract optimiser of EraseShape.v; that gcc/clang (with or without LTO) stay within it is NOT proved (partial)']
+    rep.extra['partial'] = 'compiler-level survival of the stores (O0..O3, LTO) is outside the theorem; source-level shape + functional exactness are proved'
+    return rep.finish('every erase entry point x alignments 0..7 x lengths across the unrolled body x fill values, canaries on both sides, both build configurations; strzero_s on terminated / leading-NUL / full buffers; non-trivial = distinct (function, count, alignment, build, result)',
+                      'make -C /verif/coq Properties_C18.vo + harness/check.py C18')
+REGISTRY['C18'] = check_C18
